@@ -73,11 +73,20 @@ func childOp(args []string) (out string, inputLen int) {
 		// rview URL KIND BODYLEN: the view / view-raw client against a server at URL; BODYLEN is the number of body
 		// bytes that server really sends (the measure of the input)
 		n := int(atoi(args[3]))
+		aid := -1
+		if len(args) > 4 {
+			aid = int(atoi(args[4]))
+		}
 		var err error
 		if args[2] == "viewraw" {
-			err = (&cmd.ViewRawCommand{SrcBase: args[1], SrcRelPath: "x.wsp", ArchiveID: -1, TextOut: ""}).Execute()
+			err = (&cmd.ViewRawCommand{SrcBase: args[1], SrcRelPath: "x.wsp", ArchiveID: aid, TextOut: ""}).Execute()
 		} else {
-			err = (&cmd.ViewCommand{SrcBase: args[1], SrcRelPath: "x.wsp", ArchiveID: -1, TextOut: ""}).Execute()
+			err = (&cmd.ViewCommand{SrcBase: args[1], SrcRelPath: "x.wsp", ArchiveID: aid, TextOut: ""}).Execute()
+		}
+		if aid != -1 {
+			// an archive selection against an answer that need not have that archive: whatever the command makes
+			// of it, it returns
+			return "returned", n
 		}
 		switch {
 		case err == nil:
